@@ -215,6 +215,9 @@ impl<'tcx, 'b> Cx<'tcx, 'b> {
                     si.to_uint(size) as i128
                 };
                 o.push(("val", J::Int(v)));
+            } else {
+                // e.g. a const generic parameter `N` inside a generic body
+                o.push(("txt", J::s(&format!("{}", c.const_))));
             }
         } else if let ty::Ref(_, inner, _) = ty.kind() {
             if inner.is_str() {
